@@ -161,7 +161,7 @@ theorem blockRule_sound (θ : Nat) (prefix_ : List BlockView) (suffix : List Ter
       have : totalScore (x :: xs) doc = x.scoreOf doc + totalScore xs doc := by simp [totalScore]
       rw [this, hx0, ih fun t' ht' => hsuf t' (by simp [ht'])]
   have happ : ∀ l₁ l₂ : List TermList, totalScore (l₁ ++ l₂) doc = totalScore l₁ doc + totalScore l₂ doc := by
-    intro l₁ l₂; simp [totalScore, sum_append_nat]
+    intro l₁ l₂; simp [totalScore]
   rw [happ, hsuf0, Nat.add_zero]
   suffices h : totalScore (prefix_.map (·.t)) doc ≤ (prefix_.map (·.blockMax)).sum by omega
   induction prefix_ with
